@@ -150,7 +150,7 @@ theorem C06_sorted (fn : Option Nat) (reverse : Bool) (s fuel : Nat) : Faithful 
 
 theorem C06_nlargest_nsmallest (largest : Bool) (n : Nat) (fn : Option Nat) (s fuel : Nat) :
     Faithful (Impl.nBest largest n fn s fuel) :=
-  faithful_scopedIter s (Std.faithful_nBest largest n fn s fuel)
+  faithful_scopedIter s (Std.faithful_nBestAlgo ⟨largest, false⟩ n fn s fuel)
 
 /-! Non-vacuity: a concrete world in which the source of `filter` fails at its third use. -/
 private def w0 : World :=
